@@ -277,3 +277,177 @@ Lemma linearisations_agree_l : forall n before l1 l2,
 Proof.
   intros n before l1 l2 ND HP R1 R2 HD s. apply swaps_outcome_l. apply (respects_swaps_l before l2 l1 ND HP R1 R2 HD).
 Qed.
+
+(* ------------------------------------------------------------------ [3] micro-step interleavings *)
+Definition rm (j : nat) (open : list nat) : list nat := filter (fun i => negb (Nat.eqb i j)) open.
+
+Lemma In_rm : forall i j open, In i (rm j open) <-> In i open /\ i <> j.
+Proof.
+  intros i j open. unfold rm. rewrite filter_In, negb_true_iff, Nat.eqb_neq. reflexivity.
+Qed.
+
+(* every Write happens while its step is open (has read, has not written) *)
+Fixpoint writes_open (open : list nat) (ev : list mevent) : Prop :=
+  match ev with
+  | [] => True
+  | Read i :: r => writes_open (i :: open) r
+  | Write j :: r => In j open /\ writes_open (rm j open) r
+  end.
+
+(* whenever a step writes, every other open step is independent of it *)
+Fixpoint safe (steps : list istep) (open : list nat) (ev : list mevent) : Prop :=
+  match ev with
+  | [] => True
+  | Read i :: r => safe steps (i :: open) r
+  | Write j :: r => (forall i, In i open -> i <> j -> indep_ids steps i j = true) /\ safe steps (rm j open) r
+  end.
+
+(* every buffer still equals what its step would read now *)
+Definition fresh (steps : list istep) (s : store) (b : bufs) : Prop :=
+  forall i sn a, In (i, sn) b -> act_of steps i = Some a -> sn = snapshot s a.
+
+Lemma buf_of_In : forall b j, In j (map fst b) -> exists sn, buf_of b j = Some sn /\ In (j, sn) b.
+Proof.
+  induction b as [|[k v] b IH]; intros j H; [destruct H|]. cbn in *.
+  destruct (Nat.eqb k j) eqn:E.
+  - apply Nat.eqb_eq in E. subst. exists v. split; [reflexivity | left; reflexivity].
+  - destruct H as [H|H]; [apply Nat.eqb_neq in E; contradiction|].
+    destruct (IH j H) as [sn [H1 H2]]. exists sn. split; [exact H1 | right; exact H2].
+Qed.
+
+Lemma map_fst_drop : forall b j, map fst (drop_buf b j) = rm j (map fst b).
+Proof.
+  induction b as [|[k v] b IH]; intros j; [reflexivity|]. unfold drop_buf, rm in *. cbn.
+  destruct (negb (Nat.eqb k j)); cbn; rewrite IH; reflexivity.
+Qed.
+
+Lemma In_drop_buf : forall b j i sn, In (i, sn) (drop_buf b j) -> In (i, sn) b /\ i <> j.
+Proof.
+  intros b j i sn H. unfold drop_buf in H. apply filter_In in H. destruct H as [H1 H2]. cbn in H2.
+  apply negb_true_iff, Nat.eqb_neq in H2. auto.
+Qed.
+
+Lemma write_from_store : forall n s a sn s', write_from n s a sn = Ok s' -> exists t, s' = set_obj s (wr a) t.
+Proof.
+  intros n s a sn s' H. unfold write_from in H. destruct (produce n a sn) as [t|e].
+  - injection H as <-. exists t. reflexivity.
+  - exfalso. exact (fail_of_not_ok e s' H).
+Qed.
+
+Lemma write_steps_read : forall steps k r, write_steps steps (Read k :: r) = write_steps steps r.
+Proof. reflexivity. Qed.
+Lemma write_steps_write : forall steps k r,
+  write_steps steps (Write k :: r) = match act_of steps k with Some a => [(k, a)] | None => [] end ++ write_steps steps r.
+Proof. reflexivity. Qed.
+
+Lemma mrun_exec : forall n steps ev s b,
+  fresh steps s b -> writes_open (map fst b) ev -> safe steps (map fst b) ev ->
+  mrun n steps s b ev = exec n s (map snd (write_steps steps ev)).
+Proof.
+  intros n steps ev. induction ev as [|[k|k] r IH]; intros s b HF HW HS.
+  - reflexivity.
+  - cbn [mrun]. rewrite write_steps_read. apply IH.
+    + intros i sn a [E|Hin] A; [|exact (HF i sn a Hin A)]. injection E as <- <-. rewrite A. reflexivity.
+    + exact HW.
+    + exact HS.
+  - cbn [mrun]. rewrite write_steps_write. cbn [writes_open safe] in HW, HS.
+    destruct HW as [Hk HW]. destruct HS as [Hind HS].
+    destruct (buf_of_In b k Hk) as [sn [Hb Hin]]. rewrite Hb.
+    destruct (act_of steps k) as [a|] eqn:A.
+    + cbn [app map snd exec]. rewrite (HF k sn a Hin A), <- step_is_read_write.
+      destruct (step n s a) as [s'| |] eqn:Est; try reflexivity.
+      apply IH.
+      * rewrite step_is_read_write in Est. destruct (write_from_store n s a _ s' Est) as [t ->].
+        intros i sn' a' Hi A'. apply In_drop_buf in Hi. destruct Hi as [Hi Hik].
+        rewrite (HF i sn' a' Hi A'). symmetry. apply snapshot_frame.
+        assert (I : indep_ids steps i k = true) by (apply Hind; [apply in_map_iff; exists (i, sn'); split; [reflexivity | exact Hi] | exact Hik]).
+        unfold indep_ids in I. rewrite A', A in I. apply independent_spec in I. apply I.
+      * rewrite map_fst_drop. exact HW.
+      * rewrite map_fst_drop. exact HS.
+    + cbn [app]. apply IH.
+      * intros i sn' a' Hi A'. apply In_drop_buf in Hi. exact (HF i sn' a' (proj1 Hi) A').
+      * rewrite map_fst_drop. exact HW.
+      * rewrite map_fst_drop. exact HS.
+Qed.
+
+(* the declarative premises give the recursive ones *)
+Lemma writes_open_decl : forall ev open,
+  (forall e1 i e3, ev = e1 ++ Write i :: e3 -> ~ In (Write i) e1 /\ (In i open \/ In (Read i) e1)) ->
+  writes_open open ev.
+Proof.
+  induction ev as [|[k|k] r IH]; intros open H; cbn [writes_open].
+  - exact I.
+  - apply IH. intros e1 i e3 E. destruct (H (Read k :: e1) i e3) as [N D]; [cbn; f_equal; exact E|]. split.
+    + intros X. apply N. right. exact X.
+    + destruct D as [D|[D|D]]; [left; right; exact D | injection D as ->; left; left; reflexivity | right; exact D].
+  - split.
+    + destruct (H [] k r eq_refl) as [_ [D|[]]]. exact D.
+    + apply IH. intros e1 i e3 E. destruct (H (Write k :: e1) i e3) as [N D]; [cbn; f_equal; exact E|].
+      assert (Hik : i <> k) by (intros ->; apply N; left; reflexivity).
+      split; [intros X; apply N; right; exact X|].
+      destruct D as [D|[D|D]]; [left; apply In_rm; split; assumption | discriminate D | right; exact D].
+Qed.
+
+Lemma safe_decl : forall steps ev open,
+  (forall i j, i <> j ->
+     (In i open /\ exists e2 e3, ev = e2 ++ Write j :: e3 /\ ~ In (Write i) e2) \/ open_at ev i j ->
+     indep_ids steps i j = true) ->
+  safe steps open ev.
+Proof.
+  intros steps. induction ev as [|[k|k] r IH]; intros open H; cbn [safe].
+  - exact I.
+  - apply IH. intros i j Hij [[Hi (e2 & e3 & E & N)]|(e1 & e2 & e3 & E & N)].
+    + destruct Hi as [<-|Hi].
+      * apply (H k j Hij). right. exists [], e2, e3. split; [cbn; f_equal; exact E | exact N].
+      * apply (H i j Hij). left. split; [exact Hi|]. exists (Read k :: e2), e3. split; [cbn; f_equal; exact E|].
+        intros [X|X]; [discriminate X | exact (N X)].
+    + apply (H i j Hij). right. exists (Read k :: e1), e2, e3. split; [cbn; f_equal; exact E | exact N].
+  - split.
+    + intros i Hi Hik. apply (H i k Hik). left. split; [exact Hi|]. exists [], r. split; [reflexivity | intros []].
+    + apply IH. intros i j Hij [[Hi (e2 & e3 & E & N)]|(e1 & e2 & e3 & E & N)].
+      * apply In_rm in Hi. destruct Hi as [Hi Hik]. apply (H i j Hij). left. split; [exact Hi|].
+        exists (Write k :: e2), e3. split; [cbn; f_equal; exact E|].
+        intros [X|X]; [injection X as X; apply Hik; symmetry; exact X | exact (N X)].
+      * apply (H i j Hij). right. exists (Write k :: e1), e2, e3. split; [cbn; f_equal; exact E | exact N].
+Qed.
+
+Lemma safe_of_bool : forall steps ev open,
+  forallb (fun ij => indep_ids steps (fst ij) (snd ij)) (overlaps_from open ev) = true -> safe steps open ev.
+Proof.
+  intros steps. induction ev as [|[k|k] r IH]; intros open H; cbn [safe].
+  - exact I.
+  - apply IH. exact H.
+  - cbn [overlaps_from] in H. rewrite forallb_app in H. apply andb_true_iff in H. destruct H as [H1 H2].
+    split; [|apply IH; exact H2]. intros i Hi Hik. rewrite forallb_forall in H1.
+    apply (H1 (i, k)). apply in_map_iff. exists i. split; [reflexivity|]. apply In_rm. auto.
+Qed.
+
+Lemma wf_writes_open : forall steps ev, wf_interleaving steps ev -> writes_open [] ev.
+Proof.
+  intros steps ev (ND & _ & _ & HP). apply writes_open_decl. intros e1 i e3 E. split.
+  - subst ev. apply NoDup_remove_2 in ND. intros X. apply ND. apply in_or_app. left. exact X.
+  - right. exact (HP e1 i e3 E).
+Qed.
+
+(* [3a] if all steps whose Read..Write intervals overlap are independent, the interleaving computes exactly what the
+   sequential execution in Write order computes (same store, same failure) *)
+Lemma interleaving_sequential_l : forall n steps s ev,
+  wf_interleaving steps ev ->
+  (forall i j, i <> j -> overlap ev i j -> indep_ids steps i j = true) ->
+  mrun n steps s [] ev = exec n s (map snd (write_steps steps ev)).
+Proof.
+  intros n steps s ev HW H. apply mrun_exec.
+  - intros i sn a [].
+  - exact (wf_writes_open steps ev HW).
+  - apply safe_decl. intros i j Hij [[[] _]|Ho]. apply (H i j Hij). left. exact Ho.
+Qed.
+
+Lemma interleaving_sequential_b : forall n steps s ev,
+  wf_interleaving steps ev -> overlap_freeb steps ev = true ->
+  mrun n steps s [] ev = exec n s (map snd (write_steps steps ev)).
+Proof.
+  intros n steps s ev HW H. apply mrun_exec.
+  - intros i sn a [].
+  - exact (wf_writes_open steps ev HW).
+  - apply safe_of_bool. exact H.
+Qed.
